@@ -549,4 +549,313 @@ theorem readBs (hd : BsHeader) (pn e ciR : Nat) (body : List Str) (rest : List L
       simp [List.takeWhile_cons, blankL, this]
 
 
+theorem dropWhile_replicate_empty (j : Nat) (X : List Str) :
+    List.dropWhile (·.isEmpty) (List.replicate j ([] : Str) ++ X) = List.dropWhile (·.isEmpty) X := by
+  induction j with
+  | zero => rfl
+  | succ j ih => simp [List.replicate_succ, List.dropWhile_cons, ih]
+
+theorem dropTrailingEmpty_append_empties (ls : List Str) (j : Nat) :
+    dropTrailingEmpty (ls ++ List.replicate j []) = dropTrailingEmpty ls := by
+  simp only [dropTrailingEmpty, List.reverse_append, List.reverse_replicate, dropWhile_replicate_empty]
+
+theorem chompText_notKeep (ch : Chomp) (b : Bool) (a c : Nat) (h : ch ≠ .keep) : chompText ch b a = chompText ch b c := by
+  cases ch <;> simp_all [chompText]
+
+/-- Blank lines after the body change nothing unless the chomping indicator is `keep`. -/
+theorem literalText_append_empties (ch : Chomp) (ls : List Str) (j : Nat) (h : ch = .keep → j = 0) :
+    literalText ch (ls ++ List.replicate j []) = literalText ch ls := by
+  by_cases hk : ch = .keep
+  · rw [h hk]; simp
+  · rw [literalText_eq, literalText_eq, dropTrailingEmpty_append_empties]
+    congr 1
+    exact chompText_notKeep ch _ _ _ hk
+
+theorem foldedText_eq (ch : Chomp) (ls : List Str) :
+    foldedText ch ls =
+      (match (dropTrailingEmpty ls).dropWhile (·.isEmpty) with
+       | [] => []
+       | l :: rest => newlines ((dropTrailingEmpty ls).takeWhile (·.isEmpty)).length ++ l ++ foldGo (isSpaced l) 0 rest)
+        ++ chompText ch (!(dropTrailingEmpty ls).isEmpty) (ls.length - (dropTrailingEmpty ls).length) := rfl
+
+theorem foldedText_append_empties (ch : Chomp) (ls : List Str) (j : Nat) (h : ch = .keep → j = 0) :
+    foldedText ch (ls ++ List.replicate j []) = foldedText ch ls := by
+  by_cases hk : ch = .keep
+  · rw [h hk]; simp
+  · rw [foldedText_eq, foldedText_eq, dropTrailingEmpty_append_empties]
+    congr 1
+    exact chompText_notKeep ch _ _ _ hk
+
+/-- The header the renderer writes is read back. -/
+theorem parseBsHeader_rendered (f : Bool) (ch : Chomp) (ind : Nat) (ex : Bool) (h1 : 1 ≤ ind) (h9 : ind ≤ 9) :
+    parseBsHeader f ((if ex then natDigits 10 ind else []) ++ chompChar ch) =
+      .ok ⟨f, ch, if ex then some ind else none⟩ := by
+  cases ex with
+  | false => cases ch <;> rfl
+  | true =>
+    have : ind = 1 ∨ ind = 2 ∨ ind = 3 ∨ ind = 4 ∨ ind = 5 ∨ ind = 6 ∨ ind = 7 ∨ ind = 8 ∨ ind = 9 := by omega
+    rcases this with rfl | rfl | rfl | rfl | rfl | rfl | rfl | rfl | rfl <;> cases ch <;> rfl
+
+
+/-- A block-scalar header after an indicator. -/
+theorem parseAfter_bs (f g col pn : Nat) (cOk sSame : Bool) (folded : Bool) (ch : Chomp) (ind : Nat) (ex : Bool)
+    (h1 : 1 ≤ ind) (h9 : ind ≤ 9) (ls : List Line) :
+    parseAfter (f + 1) (spaces (g + 1) ++ (if folded then '>' else '|') :: ((if ex then natDigits 10 ind else []) ++ chompChar ch))
+        col pn cOk sSame ls
+      = (readBlockScalar ⟨folded, ch, if ex then some ind else none⟩ pn ls).map fun (s, r) => (.scalar false s, r) := by
+  have hh := parseBsHeader_rendered folded ch ind ex h1 h9
+  cases folded with
+  | false =>
+    have hds : dropSpaces (spaces (g + 1) ++ '|' :: ((if ex then natDigits 10 ind else []) ++ chompChar ch))
+        = '|' :: ((if ex then natDigits 10 ind else []) ++ chompChar ch) := dropSpaces_spaces (g + 1) '|' _ (by decide)
+    rw [parseAfter]
+    simp only [Bool.false_eq_true, if_false, hds, List.head?_cons, show (some '|' == some '\t') = false by decide,
+      List.isEmpty_cons, show (some '|' == some '#') = false by decide, Bool.false_and, Bool.or_self, hh]
+  | true =>
+    have hds : dropSpaces (spaces (g + 1) ++ '>' :: ((if ex then natDigits 10 ind else []) ++ chompChar ch))
+        = '>' :: ((if ex then natDigits 10 ind else []) ++ chompChar ch) := dropSpaces_spaces (g + 1) '>' _ (by decide)
+    rw [parseAfter]
+    simp only [if_true, hds, List.head?_cons, show (some '>' == some '\t') = false by decide,
+      List.isEmpty_cons, show (some '>' == some '#') = false by decide, Bool.false_and, Bool.or_self, hh,
+      Bool.false_eq_true, if_false]
+
+theorem bodyOk_of_bsLineOk (l : Str) (h : bsLineOk l = true) : bodyOk l := by
+  simp only [bsLineOk, Bool.and_eq_true, Bool.or_eq_true] at h
+  rcases h.2 with h | h
+  · left; cases l with
+    | nil => rfl
+    | cons _ _ => simp at h
+  · right; exact h
+
+/-- A text whose lines are all empty consists of line feeds. -/
+theorem all_nl_of_lines_empty (t : Str) (h : ∀ l ∈ splitNl t, l = []) : t.all (· == '\n') = true := by
+  induction t with
+  | nil => rfl
+  | cons c b ih =>
+    by_cases hc : c = '\n'
+    · subst hc
+      rw [splitNl_cons_nl] at h
+      simp only [List.all_cons, beq_self_eq_true, Bool.true_and]
+      exact ih (fun l hl => h l (List.mem_cons_of_mem _ hl))
+    · obtain ⟨l, ls, _, h2⟩ := splitNl_cons_other c b hc
+      rw [h2] at h
+      exact absurd (h _ (List.mem_cons_self ..)) (by simp)
+
+/-- The string whose lines are written: the whole string (`strip`) or the string without its final
+line feed. -/
+def bsBase (ch : Chomp) (s : Str) : Str := if ch == .strip then s else s.dropLast
+
+theorem splitNl_base (ch : Chomp) (s : Str) (h : chompOk ch s = true) :
+    splitNl s = splitNl (bsBase ch s) ∨ splitNl s = splitNl (bsBase ch s) ++ [[]] := by
+  cases ch with
+  | strip => left; rfl
+  | clip =>
+    simp only [chompOk, Bool.and_eq_true, beq_iff_eq] at h
+    right
+    have hs := dropLast_append_getLast s '\n' h.1.1
+    conv => lhs; rw [hs]
+    exact splitNl_snoc_nl _
+  | keep =>
+    simp only [chompOk, beq_iff_eq] at h
+    right
+    have hs := dropLast_append_getLast s '\n' h
+    conv => lhs; rw [hs]
+    exact splitNl_snoc_nl _
+
+theorem find_base (ch : Chomp) (s : Str) (h : chompOk ch s = true) :
+    (splitNl (bsBase ch s)).find? (fun l => !l.isEmpty) = (splitNl s).find? (fun l => !l.isEmpty) := by
+  rcases splitNl_base ch s h with e | e
+  · rw [e]
+  · rw [e, List.find?_append]
+    cases (splitNl (bsBase ch s)).find? (fun l => !l.isEmpty) <;> simp
+
+theorem any_base (ch : Chomp) (s : Str) (h : chompOk ch s = true) (ha : s.any (· != '\n') = true) :
+    ∃ l ∈ splitNl (bsBase ch s), l ≠ [] := by
+  by_cases hex : ∃ l ∈ splitNl (bsBase ch s), l ≠ []
+  · exact hex
+  · exfalso
+    have hall : ∀ l ∈ splitNl s, l = [] := by
+      intro l hl
+      rcases splitNl_base ch s h with e | e
+      · rw [e] at hl
+        cases l with
+        | nil => rfl
+        | cons c t => exact absurd ⟨_, hl, by simp⟩ hex
+      · rw [e, List.mem_append] at hl
+        rcases hl with hl | hl
+        · cases l with
+          | nil => rfl
+          | cons c t => exact absurd ⟨_, hl, by simp⟩ hex
+        · simpa using hl
+    have := all_nl_of_lines_empty s hall
+    rw [List.any_eq_true] at ha
+    obtain ⟨c, hc, hne⟩ := ha
+    have := List.all_eq_true.mp this c hc
+    simp_all
+
+
+theorem skipFill_dropBlank (rest : List Line) : skipFill (rest.dropWhile blankL) = skipFill rest := by
+  induction rest with
+  | nil => rfl
+  | cons a r ih =>
+    by_cases ha : a.txt.isEmpty = true
+    · simp only [List.dropWhile_cons, blankL, ha, if_true, skipFill, Line.isFiller, Bool.true_or]
+      exact ih
+    · simp [List.dropWhile_cons, blankL, ha]
+
+/-- The side conditions of `readBs` for a rendered block scalar (either style), from `strOk`. -/
+theorem bs_side (root : Bool) (s : Str) (ch : Chomp) (ind : Nat) (ex : Bool) (e pn : Nat)
+    (hpn : pn = if root then 0 else e + 1) (he : root = true → e = 0)
+    (hind : (if root then 2 else 1) ≤ ind) (hlines : (splitNl s).all bsLineOk = true) (hch : chompOk ch s = true)
+    (hex : (ex || !needsExplicit s) = true) (hroot : (!root || (!ex && s.any (· != '\n'))) = true) :
+    e < pn + ind - 1 ∧
+    ((∃ d, (if ex then some ind else none) = some d ∧ pn + d - 1 = pn + ind - 1) ∨
+      ((if ex then some ind else none) = none ∧ pn ≤ pn + ind - 1 ∧ (e < pn ∨ ∃ l ∈ splitNl (bsBase ch s), l ≠ []) ∧
+        ∀ l, (splitNl (bsBase ch s)).find? (fun l => !l.isEmpty) = some l → l.head? ≠ some ' ')) := by
+  cases root with
+  | true =>
+    have he0 := he rfl
+    simp only [if_true] at hpn hind
+    simp only [Bool.not_true, Bool.false_or, Bool.and_eq_true, Bool.not_eq_true'] at hroot
+    obtain ⟨hexf, hany⟩ := hroot
+    subst hexf
+    refine ⟨by omega, Or.inr ⟨rfl, by omega, Or.inr (any_base ch s hch hany), ?_⟩⟩
+    intro l hl
+    rw [find_base ch s hch] at hl
+    have : needsExplicit s = false := by simpa using hex
+    simp only [needsExplicit, hl] at this
+    simpa using this
+  | false =>
+    simp only [Bool.false_eq_true, if_false] at hpn hind
+    refine ⟨by omega, ?_⟩
+    cases ex with
+    | true => exact Or.inl ⟨ind, rfl, rfl⟩
+    | false =>
+      refine Or.inr ⟨rfl, by omega, Or.inl (by omega), ?_⟩
+      intro l hl
+      rw [find_base ch s hch] at hl
+      have : needsExplicit s = false := by simpa using hex
+      simp only [needsExplicit, hl] at this
+      simpa using this
+
+theorem body_lines_ok (ch : Chomp) (s : Str) (hlines : (splitNl s).all bsLineOk = true) (hch : chompOk ch s = true) :
+    ∀ l ∈ splitNl (bsBase ch s), bodyOk l := by
+  intro l hl
+  apply bodyOk_of_bsLineOk
+  rw [List.all_eq_true] at hlines
+  apply hlines
+  rcases splitNl_base ch s hch with e | e
+  · rw [e]; exact hl
+  · rw [e]; exact List.mem_append_left _ hl
+
+/-- A literal block scalar after its indicator. -/
+theorem after_literal (f g col pn e : Nat) (cOk sSame : Bool) (root : Bool) (s : Str) (ch : Chomp) (ind : Nat) (ex : Bool)
+    (hpn : pn = if root then 0 else e + 1) (he : root = true → e = 0)
+    (h : strOk false root s (.literal ch ind ex) = true) (rest : List Line) (ht : Tail e (ch == .keep) rest) :
+    parseAfter (f + 1) (spaces (g + 1) ++ '|' :: ((if ex then natDigits 10 ind else []) ++ chompChar ch)) col pn cOk sSame
+        (bsLines (pn + ind - 1) (blockBodyLines false [] ch s) ++ rest)
+      = .ok (.scalar false s, rest.dropWhile blankL) := by
+  simp only [strOk, Bool.not_false, Bool.true_and, Bool.and_eq_true, decide_eq_true_eq] at h
+  obtain ⟨⟨⟨⟨⟨hind, h9⟩, hlines⟩, hch⟩, hex⟩, hroot⟩ := h
+  have h1 : 1 ≤ ind := by cases root <;> simp at hind <;> omega
+  have hpa := parseAfter_bs f g col pn cOk sSame false ch ind ex h1 h9
+    (bsLines (pn + ind - 1) (blockBodyLines false [] ch s) ++ rest)
+  simp only [Bool.false_eq_true, if_false] at hpa
+  rw [hpa]
+  obtain ⟨hlt, hside⟩ := bs_side root s ch ind ex e pn hpn he hind hlines hch hex hroot
+  have hbody : blockBodyLines false [] ch s = splitNl (bsBase ch s) := blockBodyLines_literal [] ch s
+  rw [hbody]
+  obtain ⟨j, hr, hj⟩ := readBs ⟨false, ch, if ex then some ind else none⟩ pn e (pn + ind - 1) (splitNl (bsBase ch s)) rest
+    (body_lines_ok ch s hlines hch) ht hlt hside
+  rw [hr]
+  simp only [Bool.false_eq_true, if_false, Except.map]
+  rw [literalText_append_empties ch _ j hj, ← hbody, literal_roundtrip [] ch s hch]
+
+
+theorem hdr_okc (c0 : Char) (h0 : okc c0 = true) (ex : Bool) (ind : Nat) (ch : Chomp) (h9 : ind ≤ 9) :
+    (c0 :: ((if ex then natDigits 10 ind else []) ++ chompChar ch)).all okc = true := by
+  simp only [List.all_cons, h0, Bool.true_and]
+  cases ex with
+  | false => cases ch <;> simp [chompChar, okc]
+  | true =>
+    have : ind = 0 ∨ ind = 1 ∨ ind = 2 ∨ ind = 3 ∨ ind = 4 ∨ ind = 5 ∨ ind = 6 ∨ ind = 7 ∨ ind = 8 ∨ ind = 9 := by omega
+    rcases this with rfl | rfl | rfl | rfl | rfl | rfl | rfl | rfl | rfl | rfl <;> cases ch <;> decide
+
+theorem dropWhile_space_head (l : Str) : (l.dropWhile (· == ' ')).head? ≠ some ' ' := by
+  induction l with
+  | nil => simp
+  | cons c t ih =>
+    by_cases hc : c = ' '
+    · subst hc; simpa [List.dropWhile_cons] using ih
+    · simp [List.dropWhile_cons, hc]
+
+theorem all_dropWhile {p q : Char → Bool} (l : Str) (h : l.all p = true) : (l.dropWhile q).all p = true := by
+  rw [List.all_eq_true] at h ⊢
+  intro c hc
+  exact h c ((List.dropWhile_sublist q).subset hc)
+
+/-- Rendered body lines are in the form `mkLine` produces and contain no line break. -/
+theorem bsLines_canon (ci : Nat) (body : List Str) (hp : ∀ l ∈ body, l.all isPrintable = true) :
+    ∀ L ∈ bsLines ci body, L.txt.head? ≠ some ' ' ∧ L.txt.all okc = true := by
+  intro L hL
+  obtain ⟨l, hl, rfl⟩ := List.mem_map.mp hL
+  refine ⟨dropWhile_space_head _, ?_⟩
+  apply all_dropWhile
+  simp only [indentLine]
+  split
+  · rfl
+  · rw [List.all_append]
+    have h1 : (spaces ci).all okc = true := by
+      simp only [spaces, List.all_eq_true]
+      intro c hc
+      rw [List.eq_of_mem_replicate hc]; decide
+    have h2 : l.all okc = true := by
+      rw [List.all_eq_true]
+      intro c hc
+      exact okc_printable c (List.all_eq_true.mp (hp l hl) c hc)
+    simp [h1, h2]
+
+/-- Rendered body lines (content indentation at least 1) are not document markers. -/
+theorem bsLines_notMark (ci : Nat) (hci : 1 ≤ ci) (body : List Str) (hb : ∀ l ∈ body, bodyOk l) :
+    ∀ L ∈ bsLines ci body, isDocStart L = false ∧ isDocEnd L = false := by
+  intro L hL
+  rcases bsLines_mem ci body hb L hL with ⟨h1, _⟩ | ⟨_, h2⟩
+  · constructor <;> simp [isDocStart, isDocEnd, isMarker, h1, List.isPrefixOf]
+  · have : ¬ (L.ind = 0) := by omega
+    constructor <;> simp [isDocStart, isDocEnd, isMarker, this]
+
+theorem body_lines_printable (ch : Chomp) (s : Str) (hlines : (splitNl s).all bsLineOk = true) (hch : chompOk ch s = true) :
+    ∀ l ∈ splitNl (bsBase ch s), l.all isPrintable = true := by
+  intro l hl
+  rw [List.all_eq_true] at hlines
+  have hm : l ∈ splitNl s := by
+    rcases splitNl_base ch s hch with e | e
+    · rw [e]; exact hl
+    · rw [e]; exact List.mem_append_left _ hl
+  have := hlines l hm
+  simp only [bsLineOk, Bool.and_eq_true] at this
+  exact this.1
+
+
+theorem Tail_mono (e n : Nat) (k : Bool) (rest : List Line) (h : e ≤ n) (ht : Tail e k rest) : Tail n k rest :=
+  ⟨fun l r hl => Nat.le_trans (ht.1 l r hl) h, ht.2.1, ht.2.2⟩
+
+theorem Tail_weaken (e : Nat) (k : Bool) (rest : List Line) (ht : Tail e k rest) : Tail e false rest :=
+  ⟨ht.1, ht.2.1, fun h => by cases h⟩
+
+theorem Tail_nil (e : Nat) (k : Bool) : Tail e k [] :=
+  ⟨fun l r h => by simp at h, fun l h => by simp at h, fun _ l r h => by cases h⟩
+
+/-- A first line with content that is not deeper than `e` bounds whatever precedes it. -/
+theorem Tail_of_head (e : Nat) (k : Bool) (L : Line) (more : List Line) (hne : L.txt.isEmpty = false) (hle : L.ind ≤ e) :
+    Tail e k (L :: more) := by
+  refine ⟨?_, ?_, ?_⟩
+  · intro l r h
+    simp only [List.dropWhile_cons, blankL, hne, Bool.false_eq_true, if_false, List.cons.injEq] at h
+    rw [← h.1]; exact hle
+  · intro l h
+    simp [List.takeWhile_cons, blankL, hne] at h
+  · intro _ l r h
+    rw [← (List.cons.inj h).1]; exact hne
+
 end SV.YamlRef
